@@ -1,29 +1,41 @@
-(* The third defect class of fun2core: a call whose target is `main` (known finding call-to-main).
-   compile_main gives the Core definition `main` no return-continuation parameter, a call site passes
-   one; the witness is corpus/fun/call_main_nontail.sc as the type checker annotates it (modelrun
-   compares the value with the real CheckedProgram on every run).  The witness satisfies the
-   Barendregt guard, so it also refutes fun2core_correct_guarded_statement of Props/C02.v. *)
+(* The third defect class of fun2core: a call whose target is `main` (FORMER finding call-to-main, repaired in /repo
+   by <commitmain>: when main is called somewhere, it is translated like any other definition and the program
+   starts at a fresh label that calls it with the exit continuation).  REGRESSION statements about the translation
+   before the fix ([compile_prog_before_fix]): compile_main gave the Core definition `main` no return-continuation
+   parameter, a call site passed one; the witness is corpus/fun/call_main_nontail.sc as the type checker annotates
+   it (modelrun compares the value with the real CheckedProgram on every run).  The witness satisfies the
+   Barendregt guard, so it also refuted fun2core_correct_guarded_statement of Props/C02.v. *)
 From Coq Require Import List ZArith NArith String Bool.
 From SCC Require Import Lang.FunSyn Lang.CoreSyn Sem.AxSem Sem.CoreSem Sem.FunSem Model.Fun2Core Proof.Fun2CoreProof Proof.Fun2CoreSim.
 Import ListNotations.
 
 Lemma call_main_witness_fun : run_fun 200 call_main_witness [3%Z] = ([(true, 3%Z); (true, 107%Z)], OExit 8%Z).
 Proof. vm_compute. reflexivity. Qed.
-Lemma call_main_witness_core :
-  run_core 200 (compiled_or_empty call_main_witness) [3%Z] = ([(true, 3%Z)], OStuck "call-arity").
+Lemma call_main_witness_core_before_fix :
+  run_core 200 (compiled_before_fix_or_empty call_main_witness) [3%Z] = ([(true, 3%Z)], OStuck "call-arity").
 Proof. vm_compute. reflexivity. Qed.
+(* ... and the CURRENT translation of the witness behaves like the source *)
+Lemma call_main_witness_core :
+  run_core 200 (compiled_or_empty call_main_witness) [3%Z] = ([(true, 3%Z); (true, 107%Z)], OExit 8%Z).
+Proof. vm_compute. reflexivity. Qed.
+Lemma call_main_witness_fixed_lemma :
+  compile_prog call_main_witness = Ok (compiled_or_empty call_main_witness) /\
+  run_core 200 (compiled_or_empty call_main_witness) [3%Z] = run_fun 200 call_main_witness [3%Z] /\
+  run_fun 200 call_main_witness [3%Z] = ([(true, 3%Z); (true, 107%Z)], OExit 8%Z) /\
+  map cdname (cpdefs (compiled_or_empty call_main_witness)) = [new_id "main0"; new_id "main"].
+Proof. vm_compute. repeat split; reflexivity. Qed.
 
-Theorem fun2core_call_to_main_refuted_lemma :
+Theorem fun2core_call_to_main_before_fix_lemma :
   exists (p : fcprog) (args : list Z) (c : cprog) (n : nat),
     annotated_fcprog p = true /\ effect_sequenced p = true /\ barendregt p = true /\
     shadowing_risk_prog p = false /\ calls_main_prog p = true /\
-    compile_prog p = Ok c /\
+    compile_prog_before_fix p = Ok c /\
     defined (run_fun n p args) = true /\
     run_fun n p args <> run_core n c args.
 Proof.
-  exists call_main_witness, [3%Z], (compiled_or_empty call_main_witness), 200%nat.
+  exists call_main_witness, [3%Z], (compiled_before_fix_or_empty call_main_witness), 200%nat.
   do 7 (split; [vm_compute; reflexivity|]).
-  rewrite call_main_witness_fun, call_main_witness_core. intros H. discriminate H.
+  rewrite call_main_witness_fun, call_main_witness_core_before_fix. intros H. discriminate H.
 Qed.
 
 Lemma run_core_mono : forall n c args o,
@@ -33,24 +45,24 @@ Proof.
   destruct (centry_env d args) as [e|]; [|exact H]. apply crun_mono; assumption.
 Qed.
 
-(* no amount of fuel makes the Core run of the witness agree with the source run: the guarded
-   statement (annotated, effect-sequenced, Barendregt) is false *)
-Theorem fun2core_guarded_statement_refuted_lemma :
+(* no amount of fuel made the Core run of the witness agree with the source run: the guarded
+   statement (annotated, effect-sequenced, Barendregt) was false of the translation before the fix *)
+Theorem fun2core_guarded_statement_refuted_before_fix_lemma :
   ~ (forall (p : fcprog) (c : cprog) (args : list Z) (n : nat) (o : obs),
        annotated_fcprog p = true -> effect_sequenced p = true ->
        barendregt p = true ->
-       compile_prog p = Ok c ->
+       compile_prog_before_fix p = Ok c ->
        run_fun n p args = o -> defined o = true ->
        exists m, run_core m c args = o).
 Proof.
   intros H.
-  assert (Hc : compile_prog call_main_witness = Ok (compiled_or_empty call_main_witness)) by (vm_compute; reflexivity).
+  assert (Hc : compile_prog_before_fix call_main_witness = Ok (compiled_before_fix_or_empty call_main_witness)) by (vm_compute; reflexivity).
   destruct (H call_main_witness _ [3%Z] 200%nat _ eq_refl eq_refl eq_refl Hc eq_refl) as [m Hm].
   { rewrite call_main_witness_fun. reflexivity. }
   rewrite call_main_witness_fun in Hm.
-  assert (H1 : run_core (m + 200) (compiled_or_empty call_main_witness) [3%Z] = ([(true, 3%Z); (true, 107%Z)], OExit 8%Z)).
+  assert (H1 : run_core (m + 200) (compiled_before_fix_or_empty call_main_witness) [3%Z] = ([(true, 3%Z); (true, 107%Z)], OExit 8%Z)).
   { apply run_core_mono; [exact Hm | simpl; discriminate]. }
-  assert (H2 : run_core (200 + m) (compiled_or_empty call_main_witness) [3%Z] = ([(true, 3%Z)], OStuck "call-arity")).
-  { apply run_core_mono; [exact call_main_witness_core | simpl; discriminate]. }
+  assert (H2 : run_core (200 + m) (compiled_before_fix_or_empty call_main_witness) [3%Z] = ([(true, 3%Z)], OStuck "call-arity")).
+  { apply run_core_mono; [exact call_main_witness_core_before_fix | simpl; discriminate]. }
   rewrite (Nat.add_comm 200 m) in H2. rewrite H1 in H2. discriminate H2.
 Qed.
